@@ -204,12 +204,12 @@ func VerifH_C14_faults() {
 		// the connection that ran the vacuum (failed or not) writes again:
 		// a commit it gets acknowledged is complete in the bucket (C16)
 		r := vC14Handle
-		if vIns(r, 6000, int64(8), int64(80), nil) == nil && r.Commit(vCtx) == nil {
+		if vIns(r, 6000, int64(0), int64(80), nil) == nil && r.Commit(vCtx) == nil {
 			again, err := vFreshRows(bkt)
 			symAssert(err == nil, "version-committed-after-the-vacuum-is-readable")
 			seen := false
 			for _, x := range again {
-				if symDeepEq(x.k, int64(8)) {
+				if symDeepEq(x.k, int64(0)) {
 					seen = true
 				}
 			}
